@@ -382,6 +382,13 @@ class SimRun(Engine):
         r0 = call(sim.get_initial_state)
         if r0[0] != "ok":
             ctx.op_index = 0
+            try:
+                fine = rs.state_ok(rs.initial_state())
+            except Exception:
+                fine = False   # e.g. an invariant with a free variable left behind by the minimiser
+            if not fine:
+                ctx.probe("discarded-initial-state-not-admissible")
+                return False
             ctx.fail(f"{self.prop}.initial-state", f"get_initial_state raised {r0[1]}: {r0[2]} although bounds and "
                      f"invariants hold in the declared initial state", cls=r0[1])
             return False
